@@ -28,14 +28,42 @@ def tensor_bytes(t):
     return str(t.dtype).encode() + str(tuple(t.shape)).encode() + num.bits_of(t).contiguous().numpy().tobytes()
 
 
+_BASE_ATTRS = None
+
+
+def _digest(v, depth=0):
+    """Canonical bytes of an arbitrary attribute value (tensors by content)."""
+    if isinstance(v, torch.Tensor):
+        try:
+            return b"T" + tensor_bytes(v)
+        except Exception:
+            return b"T?" + str(tuple(v.shape)).encode()
+    if isinstance(v, (list, tuple)) and depth < 4:
+        return b"(" + b",".join(_digest(x, depth + 1) for x in v) + b")"
+    if isinstance(v, dict) and depth < 4:
+        return b"{" + b",".join(repr(k).encode() + b":" + _digest(x, depth + 1) for k, x in sorted(v.items(), key=lambda kv: repr(kv[0]))) + b"}"
+    if isinstance(v, (int, float, str, bool, type(None), torch.dtype, torch.device)):
+        return repr(v).encode()
+    if hasattr(v, "name") and hasattr(v, "bits"):
+        return repr(v).encode()  # qtype
+    return type(v).__name__.encode()
+
+
 def model_hash(model, extra=()):
+    """Content hash of everything a module holds: parameters, buffers and *every extra instance attribute* (so that hidden
+    state such as caches is part of the canonical key and states that differ only there are not merged)."""
+    global _BASE_ATTRS
+    if _BASE_ATTRS is None:
+        _BASE_ATTRS = set(torch.nn.Module().__dict__.keys())
     h = hashlib.sha256()
     for name, m in model.named_modules():
         h.update(name.encode())
         h.update(type(m).__name__.encode())
-        for attr in ("weight_qtype", "activation_qtype", "weight_group_size"):
-            if hasattr(m, attr):
-                h.update(repr(getattr(m, attr)).encode())
+        for k in sorted(m.__dict__.keys()):
+            if k in _BASE_ATTRS or k in ("in_features", "out_features"):
+                continue
+            h.update(k.encode())
+            h.update(_digest(m.__dict__[k]))
         for pn, p in list(m.named_parameters(recurse=False)) + list(m.named_buffers(recurse=False)):
             h.update(pn.encode())
             h.update(tensor_bytes(p))
